@@ -124,7 +124,8 @@ func (w *World) bindMode(txn statedb.ReadTxn, what string, skip map[int]bool, hi
 			// distinguish a wrong initialization state from an unknown table version
 			for j := len(tc.M.Chain) - 1; j >= 0; j-- {
 				if tc.M.Chain[j].Rev == rev {
-					w.violate("C19", "init-state", "%s table %s at revision %d reports pending initializers %q; the model has %q there",
+					// a wrong initialization state, or (C05) a committed registration/mark overwritten by a stale table entry
+					w.violate(w.attr("C19", "C05"), "init-state", "%s table %s at revision %d reports pending initializers %q; the model has %q there",
 						what, tc.M.Name, rev, pend, tc.M.Chain[j].Pending)
 					return nil
 				}
